@@ -332,6 +332,9 @@ for i,sh in enumerate(SHAPES):
         c14.append(job("shape3-"+sh,"rule/flags","VH_Tokens",["C14/"],{"shape":i,"hole":hole,"arghole":3},T,bounds=f"line shape '{sh}' with S/k/w/p arguments of 0..3 symbolic bytes"))
     if sh.count("F")+sh.count("C")==1:
         c14.append(job("shape6-"+sh.replace("#","stray"),"rule/flags","VH_Tokens",["C14/"],{"shape":i,"hole":6,"arghole":4},T,bounds=f"line shape '{sh}' with filter text of 0..6 symbolic bytes"))
+for sh in ("aFk","aSk","aC","wk"):
+    c14.append(job("quoting-"+sh,"rule/flags","VH_Tokens",["C14/"],{"shape":SHAPES.index(sh),"hole":3,"arghole":2,"quoting":1},Q,
+       bounds=f"line shape '{sh}' with every F/C/S/k/w/p argument written in single quotes, bare, or in double quotes (filter text 0..3, other arguments 0..2 symbolic ASCII bytes; bare: non-empty, no blanks; bare and double-quoted: none of \" \\ $ `)"))
 c14.append(job("parse-history","rule/flags","VH_ParseHistory",["C14/"],{},Q,expect=["C14/other-line-rejected"],bounds="4 lines x 12 other lines (11 rejected at different places, 1 accepted): Parse(line), Parse(other), Parse(line) give rules that build to the same bytes"))
 C["C14"]={"jobs":c14,"assumptions":PARSE_ASSUME[:2]+["hole bytes are ASCII and free of single quotes, so shell quoting of the assembled line is exact","repeated single-valued flags (-w x -w y, -a .. -a ..) are outside the domain explored: the property does not say whether last-wins is acceptable",
    "filter text is compared after trimming surrounding white space and ignoring white space between field and operator (a parser that trims is not faulted, one that drops non-blank text is)"],
